@@ -71,6 +71,7 @@ func newTLim(rt *rapid.T, rates []rateSpec, capacity int) *tlim {
 	l := &tlim{}
 	h := http.HandlerFunc(func(w http.ResponseWriter, req *http.Request) {
 		l.handled++
+		w.Header().Set("X-Handled", "1") // per request: several may be in flight at once
 		w.WriteHeader(http.StatusOK)
 	})
 	var opts []ratelimit.TokenLimiterOption
@@ -95,9 +96,8 @@ func (l *tlim) do(src string, amount int64) tlResult {
 	req := newRequest(nil, src)
 	req.Header.Set("Amount", strconv.FormatInt(amount, 10))
 	rec := simkit.NewRecorder()
-	before := l.handled
 	l.lim.ServeHTTP(rec, req)
-	res := tlResult{status: rec.Status, handled: l.handled > before}
+	res := tlResult{status: rec.Status, handled: rec.H.Get("X-Handled") != ""}
 	if v := rec.Snapshot.Get("X-Retry-In"); v != "" {
 		res.retryHdr = v
 		d, err := time.ParseDuration(v)
